@@ -137,7 +137,7 @@ class Reflect:
     """The program as ``build`` will see it: reachable object graph → Gallina ``prog`` + ``request``."""
 
     def __init__(self, inputs: dict, outputs: dict, drop=False):
-        self.nid, self.nodes, self.gid, self.graphs, self._keep = {}, [], {}, [None], []
+        self.nid, self.nodes, self.gid, self.graphs, self._keep, self._keep_nodes = {}, [], {}, [None], [], []
         self.inputs, self.outputs, self.drop = inputs, outputs, drop
         self.req_in = [(k, self.pyobj(v)) for k, v in inputs.items()]
         self.req_out = [(k, self.pyobj(v)) for k, v in outputs.items()]
@@ -161,6 +161,7 @@ class Reflect:
         self.nid[id(op)] = i
         self.nodes.append(None)
         self._keep.append(op)
+        self._keep_nodes.append(op)
         attrs = []
         kind = "KOp"
         if isinstance(op, Argument):
